@@ -205,7 +205,7 @@ fn valid_registry_use(c: &Case) -> bool {
         match op {
             Op::RCreate(id, _) => { if live.contains(id) { return false; } live.push(*id); }
             Op::RDestroy(id) => { if !live.contains(id) { return false; } live.retain(|x| x != id); }
-            Op::RMarkers(id, ..) | Op::RLimit(id, _) | Op::RAdd(id, ..) | Op::RSearch(id, _) | Op::RResults(id) => { if !live.contains(id) { return false; } }
+            Op::RMarkers(id, ..) | Op::RLimit(id, _) | Op::RAdd(id, ..) | Op::RSearch(id, _) | Op::RResults(id) | Op::RClear(id) => { if !live.contains(id) { return false; } }
             _ => {}
         }
     }
